@@ -9,8 +9,11 @@ package netpoll
 // the per-event point), so fetch and dispatch can be interleaved with the other actors.
 
 import (
+	"fmt"
 	"os"
 	"regexp"
+	"runtime/debug"
+	"strings"
 	"syscall"
 	"unsafe"
 
@@ -73,6 +76,28 @@ func (m *vManualPoll) step() (closed bool) {
 	return false
 }
 
+// safeStep: a panic inside the poller's dispatch is recorded (with the side of the reactor it happened on)
+// instead of killing the test process; the poller actor ends.
+func (m *vManualPoll) safeStep() (stop bool) {
+	defer func() {
+		if x := recover(); x != nil {
+			st := string(debug.Stack())
+			side := "poller"
+			switch {
+			case strings.Contains(st, ".outputAck(") || strings.Contains(st, ".outputs("):
+				side = "poller:output"
+			case strings.Contains(st, ".inputAck(") || strings.Contains(st, ".inputs("):
+				side = "poller:input"
+			}
+			if m.s.emit != nil {
+				m.s.emit("Panic", side, 0, 0, fmt.Sprint(x)+" | "+vShortStack())
+			}
+			stop = true
+		}
+	}()
+	return m.step()
+}
+
 func (m *vManualPoll) start() {
 	prev := m.s.onStop
 	m.s.onStop = func() {
@@ -89,7 +114,7 @@ func (m *vManualPoll) start() {
 			if m.stop {
 				return
 			}
-			if m.step() {
+			if m.safeStep() {
 				return
 			}
 		}
